@@ -157,6 +157,12 @@ func (bp *Packager) prepareSenderAndRecipientKeys(cty string, envelope *transpor
 				recipients = append(recipients, marshalledKey)
 			}
 		case cty == transport.LegacyDIDCommV1Profile:
+			for j := 0; j < len(receiverKeyID); j++ {
+				if receiverKeyID[j] >= 0x80 { //nolint:gomnd // base58.Decode panics on a non-ASCII rune
+					return nil, nil, fmt.Errorf("prepareSenderAndRecipientKeys: recipient key %d is not base58 encoded", i+1)
+				}
+			}
+
 			recipients = append(recipients, base58.Decode(receiverKeyID))
 		default:
 			recipients = append(recipients, []byte(receiverKeyID))
